@@ -215,6 +215,7 @@ def run(ctx, only=None):
             toks = c.split(" ")
             fails.append(Failure(c, f"converting the reply {unhexs(toks[3])!r} into the typed response of {toks[1]} {toks[2]} panicked "
                                     f"(expected a value or a typed-response error)"))
+    fails.sort(key=lambda f: len(f.case))      # report the shortest failing input first
     if model is not None:
         for c, out in zip(cases, model):
             if "PANIC" in out and not any(f.case == c for f in fails):
